@@ -8,7 +8,7 @@ from vlib.wsgi import FragStream, make_environ, call_app
 ID = 'C05'
 LEVEL = 'fault_enumeration'
 RULE = ('case = (payload, chunk sizes, per-chunk hex case / leading zeros (0-3, and 14-40: size fields longer than any fixed-width parse) / token or quoted-string extension (escaped quotes, separators inside the quotes), last-chunk extension, 1-5000 chunks, '
-        'trailers, buffer >= longest size line, read-fragmentation caps; through WSGI also with an additional Content-Length header of 0 / wire length / 3 / too large, which the transfer coding overrides). Encoded by the harness encoder. For each '
+        'trailers, buffer >= longest size line, read-fragmentation caps; through WSGI also with an additional Content-Length header of 0 / wire length / 3 / too large, which the transfer coding overrides, with Transfer-Encoding spelled as a list ending in chunked (any letter case, blanks, empty elements) and with any Content-Type incl. multipart over a well-formed multipart payload with epilogue). Encoded by the harness encoder. For each '
         'encoding: (1) legal decode through _body_read and through WSGI must equal the payload; (2) EVERY strict prefix '
         'that ends before the complete zero-size chunk line must raise BodyParsingError (400 through WSGI); (3) each '
         'chunk CRLF deleted / replaced must be rejected; (4) every single-byte substitution in framing bytes '
@@ -85,6 +85,12 @@ def decode_direct(data, buf, pattern):
     return 'ok', out
 
 
+TE_SPELLINGS = ['chunked', 'chunked', 'Chunked', 'CHUNKED', ' chunked ', 'chunked,', 'chunked, ', 'gzip, chunked', 'gzip,chunked', ',chunked', 'gzip, chunked ,', 'identity , chunked', ', chunked,']
+CTYPES = [None, None, 'application/octet-stream', 'multipart/form-data; boundary=bnd', 'text/plain', 'multipart/mixed; boundary=bnd', 'application/json']
+MP_PAYLOAD = (b'--bnd\r\nContent-Disposition: form-data; name="a"\r\n\r\nvalue one\r\n--bnd\r\nContent-Disposition: form-data; name="f"; filename="x.bin"\r\n\r\nfile data\r\n--bnd--'
+              b'\r\nepilogue line one\r\nepilogue line two that is long enough to fill several further chunks of the coding\r\n')
+
+
 def decode_wsgi(data, buf, pattern):
     import ombott
     app = ombott.Ombott({'max_memfile_size': buf})
@@ -96,8 +102,14 @@ def decode_wsgi(data, buf, pattern):
     # a chunked request may also carry a Content-Length header (the transfer coding overrides it): rotate through none / 0 / wire length / small
     decode_wsgi.n = getattr(decode_wsgi, 'n', 0) + 1
     cl = [None, None, 0, len(data), 3, len(data) + 50][decode_wsgi.n % 6]
-    env = make_environ('POST', '/c', stream=FragStream(data, pattern), content_length=cl,
-                       headers={'Transfer-Encoding': 'chunked'})
+    # the header value is a list that ends with the chunked coding (RFC 7230 3.3.1; empty list elements and blanks are legal), in any letter case;
+    # the body's media type (also a multipart one) has no say in the transfer coding
+    te = TE_SPELLINGS[decode_wsgi.n % len(TE_SPELLINGS)]
+    headers = {'Transfer-Encoding': te}
+    ct = decode_wsgi.ctype or CTYPES[(decode_wsgi.n // 3) % len(CTYPES)]
+    if ct:
+        headers['Content-Type'] = ct
+    env = make_environ('POST', '/c', stream=FragStream(data, pattern), content_length=cl, headers=headers)
     r = call_app(app, env)
     if r.escaped is not None:
         raise CheckFailure(f'exception escaped the app: {fmt_exc(r.escaped)}')
@@ -110,7 +122,18 @@ def decode_wsgi(data, buf, pattern):
     raise CheckFailure(f'status {r.status!r} for a chunked body; wsgi.errors: {r.errors[-500:]}')
 
 
+decode_wsgi.ctype = None
+
+
 def check_case(ctx, case):
+    decode_wsgi.ctype = case.get('ctype')
+    try:
+        return _check_case(ctx, case)
+    finally:
+        decode_wsgi.ctype = None
+
+
+def _check_case(ctx, case):
     payload = case['payload']
     enc, layout, buf = build(case)
     pattern = case['pattern']
@@ -158,7 +181,7 @@ def check_case(ctx, case):
 
     # ---- (2) every strict prefix before the end of the zero-size chunk line
     last = [x for x in layout if x[0] == 'last'][0]
-    wsgi_every = 7
+    wsgi_every = 1 if case.get('ctype') else 7
     for cut in range(0, last[2]):
         if only is not None and only != ['cut', cut]:
             continue
@@ -167,7 +190,7 @@ def check_case(ctx, case):
         if kind != 'reject':
             raise CheckFailure(f'truncated encoding accepted: enc={enc!r} cut at {cut} -> body {out!r} (buf={buf}, '
                                f'pattern={pattern}); fault=["cut",{cut}]')
-        if cut % wsgi_every == 3 or only is not None:
+        if cut % wsgi_every == 3 % wsgi_every or only is not None:
             ctx.evals += 1
             kind, out = decode_wsgi(enc[:cut], buf, pattern)
             if kind != 'reject':
@@ -188,6 +211,9 @@ def check_case(ctx, case):
             kind, out = decode_direct(bad, buf, pattern)
             if kind != 'reject':
                 raise CheckFailure(f'chunk data not followed by CRLF was accepted: enc={bad!r} ({name} at {s}) -> {out!r}; '
+                                   f'fault=["crlf",{idx},"{name}"]')
+            if case.get('ctype') and decode_wsgi(bad, buf, pattern)[0] != 'reject':
+                raise CheckFailure(f'chunk data not followed by CRLF was accepted through WSGI (Content-Type {case["ctype"]}): enc={bad!r} ({name} at {s}); '
                                    f'fault=["crlf",{idx},"{name}"]')
             ctx.nontrivial(('crlf', enc, idx, name, buf, tuple(pattern)))
             ctx.count('fault_missing_crlf')
@@ -274,6 +300,11 @@ def run(ctx):
                 for pattern in ([], [7]):
                     ctx.guarded(check_case, dict(base, payload=bytes(65 + i % 26 for i in range(nch * size)), sizes=[size] * nch, exts=[None], pattern=pattern, mode='legal_only'))
         ctx.count('chunk_count_grid')
+        # a well-formed multipart document with an epilogue as payload under a multipart content type: the coding is decoded and validated to its end
+        for sizes in ([16], [40, 9], [len(MP_PAYLOAD) - 60, 7], [1000]):
+            for ct in ('multipart/form-data; boundary=bnd', 'multipart/mixed; boundary=bnd'):
+                ctx.guarded(check_case, dict(base, payload=MP_PAYLOAD, sizes=sizes, exts=[None], pattern=[], ctype=ct, buf_extra=40))
+        ctx.count('multipart_payload_grid')
     n = 900 if ctx.tier == 'quick' else 6000
     ctx.hyp(_strategy(), check_case, n)
     if ctx.tier == 'thorough' and ctx.shard < 4:
